@@ -892,8 +892,10 @@ class Manager:
 
             err = _exc_info()
 
-            event.value.value = err
+            # mark the error first (as _dispatcher does): setting the value informs the
+            # parents of the value, which must not take the error triple for a result
             event.value.errors = True
+            event.value.value = err
             event.value.inform(True)
 
             if event.failure:
